@@ -128,3 +128,25 @@ Theorem C08_slicer_partitions :
     List.concat (slice objs) = objs /\ obj_parts_ordered (slice objs).
 Proof. exact slicer_partitions. Qed.
 Print Assumptions C08_slicer_partitions.
+
+(* Tie T: the three decisions of meta.Slicer.stash (close the accumulated
+   partition; replace the running minimum; replace the running maximum) are
+   re-translated from runtime/sam/op/meta/slicer.go by go2coq on every run
+   (Gen/SlicerGen.v).  The Slicer loop over the translated conditions is the
+   hand-written slice for every object list, so the partition theorem speaks
+   about the code's own conditions. *)
+From ZV Require Import Model.StashTable Gen.SlicerGen Proofs.SlicerGenProofs.
+
+Theorem C08_slicer_translated :
+  forall objs,
+    slice_tbl gen_stash_flush gen_stash_newmin gen_stash_newmax objs [] None None = slice objs.
+Proof. exact slice_gen_ok. Qed.
+Print Assumptions C08_slicer_translated.
+
+Theorem C08_slicer_partitions_translated :
+  forall objs,
+    sorted omin_le objs -> (forall o, In o objs -> kle (omin o) (omax o) = true) ->
+    List.concat (slice_tbl gen_stash_flush gen_stash_newmin gen_stash_newmax objs [] None None) = objs /\
+    obj_parts_ordered (slice_tbl gen_stash_flush gen_stash_newmin gen_stash_newmax objs [] None None).
+Proof. exact slicer_partitions_translated. Qed.
+Print Assumptions C08_slicer_partitions_translated.
